@@ -175,8 +175,8 @@ def sol_lit(s):
     return "(S19 %s %s %s)" % (jlist(arr(s.variables)), jlist(arr(s.objectives)), jlist(arr(s.constraints)))
 
 
-OPNAME = {"_constraint_eq": "CEq", "_constraint_leq": "CLeq", "_constraint_geq": "CGeq",
-          "_constraint_neq": "CNeq", "_constraint_lt": "CLt", "_constraint_gt": "CGt"}
+OPNAME = {"_constraint_eq": "JsEq", "_constraint_leq": "JsLeq", "_constraint_geq": "JsGeq",
+          "_constraint_neq": "JsNeq", "_constraint_lt": "JsLt", "_constraint_gt": "JsGt"}
 
 
 def ctab_entry(op):
@@ -198,15 +198,15 @@ def exact_violation(decls, xs):
             return None
         fx, fy = Fraction(x), Fraction(y)
         d = abs(fx - fy)
-        if opn == "CEq":
+        if opn == "JsEq":
             t = d
-        elif opn == "CLeq":
+        elif opn == "JsLeq":
             t = 0 if fx <= fy else d
-        elif opn == "CGeq":
+        elif opn == "JsGeq":
             t = 0 if fx >= fy else d
-        elif opn == "CNeq":
+        elif opn == "JsNeq":
             t = 0 if fx != fy else 1
-        elif opn == "CLt":
+        elif opn == "JsLt":
             t = 0 if fx < fy else d + delta
         else:
             t = 0 if fx > fy else d + delta
@@ -527,11 +527,27 @@ def oracle_json(ctx, src, saved_problem, is_algorithm, supplied, loaded, replay,
         xs = arr(b.constraints)
         if not all(isinstance(c.op, str) for c in decls):
             continue
-        exp = 0
-        for c, x in zip(decls, xs):
-            exp = exp + abs(c(x))
+        # total violation = sum of |c_i(x_i)| over the declarations; the order/compensation of the float summation is not
+        # part of the property (CPython 3.12's sum() is compensated), so the magnitude is checked against the EXACT sum of
+        # the float terms up to 4 ulp, zero-ness and infinity exactly
+        terms = [abs(c(x)) for c, x in zip(decls, xs)]
         v = b.constraint_violation
-        if not (isinstance(v, (int, float)) and float(v) == float(exp) and bits(float(v)) == bits(float(exp))):
+        good = isinstance(v, (int, float)) and not isinstance(v, bool)
+        if good:
+            if any(isinstance(t, float) and math.isinf(t) for t in terms):
+                good = v == INF
+                exp = INF
+            else:
+                exp = sum(Fraction(t) for t in terms) if terms else Fraction(0)
+                if exp >= Fraction(1.7976931348623157e308):        # the float sum may overflow
+                    good = v == INF or (math.isfinite(v) and abs(Fraction(v) - exp) <= exp / 2 ** 50)
+                    exp = INF
+                else:
+                    good = math.isfinite(v) and abs(Fraction(v) - exp) <= exp / 2 ** 50 and ((v == 0) == (exp == 0))
+                    exp = float(exp)
+        else:
+            exp = "a number"
+        if not good:
             bad("json:violation-not-recomputed", "solution %d constraints %r against %r: constraint_violation=%r, declarations give %r" % (
                 i, describe(xs), [c.op for c in decls], describe(v), describe(exp)))
             continue
@@ -903,6 +919,14 @@ def run(ctx):
                 "another problem of that shape, through save_json/load_json (str, pathlib, bytes paths) or dump/load, indent None/0/2/4; objectives files likewise; "
                 "live NSGAII/SPEA2/EpsMOEA/GeneticAlgorithm runs on function- and subclass-based problems; non-trivial = at least one solution and "
                 "(a maximised objective, a constraint, a non-Real variable encoding or a long-repr float); distinct by file text + loader")
+    sc0 = next((x for x in (get_scenario(sd) for sd in seeds[1:40]) if len(x.sols) >= 2 and x.problem.nconstrs and x.problem.nvars >= 2), get_scenario(seeds[1]))
+    ctx.sample({"scenario_seed": sc0.seed, "problem": {"nvars": sc0.problem.nvars, "nobjs": sc0.problem.nobjs, "nconstrs": sc0.problem.nconstrs,
+                                                        "types": [str(t) for t in arr(sc0.problem.types)],
+                                                        "directions": [d.name for d in arr(sc0.problem.directions)],
+                                                        "constraints": [c.op for c in arr(sc0.problem.constraints)]},
+                "solutions": [{"variables": describe(arr(s.variables)), "objectives": describe(arr(s.objectives)),
+                               "constraints": describe(arr(s.constraints))} for s in sc0.sols[:3]],
+                "written_from": WRITERS, "loaded_with": LOADERS, "api": sc0.api, "indent": sc0.indent})
     if lits:
         ctx.sample({"coq_case": lits[1][:1500] if len(lits) > 1 else lits[0][:1500]})
     if olits:
